@@ -10,7 +10,6 @@ import (
 	"unicode/utf8"
 
 	"github.com/makiuchi-d/gozxing"
-	"github.com/makiuchi-d/gozxing/qrcode"
 	qrdec "github.com/makiuchi-d/gozxing/qrcode/decoder"
 	qrenc "github.com/makiuchi-d/gozxing/qrcode/encoder"
 
@@ -74,7 +73,7 @@ func c01RoundTrip(r *fw.Rec, o c01Opts, class string) bool {
 	if o.margin > 0 {
 		wh[gozxing.EncodeHintType_MARGIN] = o.margin
 	}
-	img, werr := qrcode.NewQRCodeWriter().Encode(o.text, gozxing.BarcodeFormat_QR_CODE, o.w, o.h, wh)
+	img, werr := instQRWriter().Encode(o.text, gozxing.BarcodeFormat_QR_CODE, o.w, o.h, wh)
 	r.Evals(1)
 	if werr != nil {
 		r.Violation("roundtrip", "qr.writer:refused-fitting-content:"+class, fmt.Sprintf("QRCodeWriter.Encode refused a fitting text (%s): %v", class, werr), info)
@@ -114,7 +113,7 @@ func c01RoundTrip(r *fw.Rec, o c01Opts, class string) bool {
 		r.Violation("roundtrip", "qr.image-path:bitmap-error", fmt.Sprintf("NewBinaryBitmapFromImage: %v", berr), info)
 		return false
 	}
-	result, rerr := qrcode.NewQRCodeReader().Decode(bmp, map[gozxing.DecodeHintType]interface{}{gozxing.DecodeHintType_PURE_BARCODE: true})
+	result, rerr := instQRReader().Decode(bmp, map[gozxing.DecodeHintType]interface{}{gozxing.DecodeHintType_PURE_BARCODE: true})
 	if rerr != nil {
 		r.Violation("roundtrip", "qr.image-path:decode-error:"+class, fmt.Sprintf("pure-barcode reader rejected the writer's %dx%d image (%s, margin %d): %v", img.GetWidth(), img.GetHeight(), class, o.margin, rerr), info)
 		return false
